@@ -1,4 +1,5 @@
 import SctpVerif.Proofs.Sna
+import SctpVerif.Gen.Facts
 /-!
 # C16 — sequence-number wrap-around is invisible (algebra part)
 
@@ -99,6 +100,12 @@ theorem C16_wrap_succ32 (a : BitVec 32) : sna32LT a (a + 1) = true ∧ sna32GT (
 
 theorem C16_wrap_succ16 (a : BitVec 16) : sna16LT a (a + 1) = true ∧ sna16GT (a + 1) a = true := by
   rw [lt16_iff, gt16_iff]; bv_omega
+
+/-- Every ordered comparison of protocol sequence numbers in the code goes through the serial-number
+helpers proved above: the translator lists every `< <= > >=` between uint16/uint32 operands named like
+a sequence number outside util.go (regenerated from the source on every run); the list must be empty.
+(On the pinned tree it was not: `a.peerLastTSN() < par.senderLastTSN`, fixed in /repo.) -/
+theorem C16_all_compares_serial : Gen.rawSeqCompares = [] := by decide
 
 -- non-vacuity: the hypotheses are satisfiable at the wrap itself
 example : sna32LT 0xFFFFFFFF#32 0#32 = true ∧ sna32LT 0#32 0xFFFFFFFF#32 = false := by decide
